@@ -459,6 +459,8 @@ func checkStreamWriter(p *Program, r *Result) {
 			var after bool
 			state := "unknown"
 			var lastStore *ssa.Store
+			// values a branch taken earlier on the path has shown to be non-nil
+			knownNonNil := map[ssa.Value]bool{}
 			for bi, b := range pa.Blocks {
 				for _, in := range b.Instrs {
 					if c, ok := in.(ssa.CallInstruction); ok && calleeName(c.Common()) == flush.String() {
@@ -468,7 +470,7 @@ func checkStreamWriter(p *Program, r *Result) {
 					if st, ok := in.(*ssa.Store); ok {
 						if fa, ok := st.Addr.(*ssa.FieldAddr); ok && fieldName(fa.X.Type(), fa.Field) == "err" {
 							lastStore = st
-							if isFreshNonSentinelError(st.Val) {
+							if isFreshNonSentinelError(st.Val) || knownNonNil[stripConv(st.Val)] {
 								state = "nonnil"
 							} else {
 								state = "unknown"
@@ -483,6 +485,9 @@ func checkStreamWriter(p *Program, r *Result) {
 				if bi < len(pa.Edge) && pa.Edge[bi] >= 0 {
 					if ifi, ok := b.Instrs[len(b.Instrs)-1].(*ssa.If); ok {
 						a := ctb.atomOf(Guard{If: ifi, Cond: ifi.Cond, Pol: pa.Edge[bi] == 0})
+						if a.Kind == "cmp" && a.Y.Op == "Nil" && a.Op == "!=" && a.X.V != nil {
+							knownNonNil[stripConv(a.X.V)] = true
+						}
 						if a.Kind == "cmp" && a.Y.Op == "Nil" && lastStore != nil && a.X.V != nil && stripConv(a.X.V) == stripConv(lastStore.Val) {
 							// the branch tests the value just stored in w.err
 							if a.Op == "!=" {
